@@ -6,7 +6,7 @@
 (* Chiritori.tla it belongs to, with the logged value bound to the primed  *)
 (* variable.  The property predicates of Props.tla are the invariants.     *)
 (***************************************************************************)
-EXTENDS KnownFindings, Json, IOUtils
+EXTENDS Conform, Json, IOUtils
 
 Beh == ndJsonDeserialize(IOEnv.TRACE)
 
@@ -58,6 +58,9 @@ TraceSpec == TraceInit /\ [][TraceNext]_tvars
 
 \* identification of the behaviour in error traces
 BehId == Beh[b].id
+
+\* conformance to Layer I: always TRUE, prints DRIFT records
+Conf_All == ConfAll(BehId)
 
 Inv_C01 == C01
 Inv_C02 == C02
